@@ -86,7 +86,7 @@ Definition reach (h : heap) (roots : list addr) : list addr :=
 (* ---------------------------------------------------------------- state monad over the heap *)
 Definition M (A : Type) := heap -> heap * A.
 Definition ret {A} (x : A) : M A := fun h => (h, x).
-Definition bind {A B} (m : M A) (k : A -> M B) : M B := fun h => k (snd (m h)) (fst (m h)).
+Definition bind {A B} (m : M A) (k : A -> M B) : M B := fun h => let r := m h in k (snd r) (fst r).
 Definition alloc (o : obj) : M addr := fun h => (h ++ [o], length h).
 Definition write (a : addr) (o : obj) : M unit := fun h => (upd h a o, tt).
 Definition read (a : addr) : M obj := fun h => (h, get h a).
@@ -137,11 +137,17 @@ Definition copy_op (deep : bool) (a : addr) : M addr :=
 Definition ops_of (c : addr) : M (list addr) :=
   o <- read c ;; ret (match o with OCirc ops => ops | _ => [] end).
 
-(* QuantumCircuit.copy() *)
-Definition circuit_copy (deep : bool) (c : addr) : M addr :=
+(* QuantumCircuit.copy(): returns the new circuit and (for the model's convenience) its instruction list.
+   The model threads instruction lists it has just built instead of re-reading them from the heap. *)
+Definition circuit_copy (deep : bool) (c : addr) : M (addr * list addr) :=
   ops <- ops_of c ;;
   ops' <- mapM (copy_op deep) ops ;;
-  alloc (OCirc ops').
+  c' <- alloc (OCirc ops') ;;
+  ret (c', ops').
+
+(* `circuit` itself when inplace, a copy otherwise *)
+Definition target (deep inplace : bool) (c : addr) : M (addr * list addr) :=
+  if inplace then (ops <- ops_of c ;; ret (c, ops)) else circuit_copy deep c.
 
 (* QPDBasis.from_instruction(gate): the registry functions build new lists and new gate objects on
    every call; the content of the basis is the business of C02, only its freshness matters here:
@@ -166,32 +172,34 @@ Definition is_qpd2 (o : obj) : bool := match o with OOp KQpd2 _ _ _ => true | _ 
 
 (* ---------------------------------------------------------------- partition_circuit_qubits *)
 (* spans[i] = instruction i is a two-qubit non-barrier instruction whose qubits carry two labels *)
-Fixpoint pcq_loop (c : addr) (i : nat) (ops : list addr) (spans : list bool) : M unit :=
-  match ops, spans with
-  | a :: r, s :: sr =>
+(* returns the instruction list of c after the loop *)
+Fixpoint pcq_loop (c : addr) (i : nat) (ops : list addr) (spans : list bool) : M (list addr) :=
+  match ops with
+  | [] => ret []
+  | a :: r =>
       o <- read a ;;
-      (if s && negb (is_qpd2 o)
-       then (gb <- new_qpd2 1 ;; set_op c i (fst gb))
-       else ret tt) ;;
-      pcq_loop c (S i) r sr
-  | _, _ => ret tt
+      a' <- (if nth i spans false && negb (is_qpd2 o)
+             then (gb <- new_qpd2 1 ;; _ <- set_op c i (fst gb) ;; ret (fst gb))
+             else ret a) ;;
+      rest <- pcq_loop c (S i) r spans ;;
+      ret (a' :: rest)
   end.
 
-Definition partition_circuit_qubits (m : mode) (inplace : bool) (c : addr) (spans : list bool) : M addr :=
-  c' <- (if inplace then ret c else circuit_copy (fix6 m) c) ;;
-  ops <- ops_of c' ;;
-  _ <- pcq_loop c' 0 ops spans ;;
-  ret c'.
+Definition partition_circuit_qubits (m : mode) (inplace : bool) (c : addr) (spans : list bool)
+  : M (addr * list addr) :=
+  co <- target (fix6 m) inplace c ;;
+  ops' <- pcq_loop (fst co) 0 (snd co) spans ;;
+  ret (fst co, ops').
 
 (* ---------------------------------------------------------------- cut_gates *)
 Definition cut_one (c : addr) (gid : nat) : M addr :=
   gb <- new_qpd2 1 ;; _ <- set_op c gid (fst gb) ;; ret (snd gb).
 
 Definition cut_gates (m : mode) (inplace : bool) (c : addr) (gate_ids : list nat) : M (addr * addr) :=
-  c' <- (if inplace then ret c else circuit_copy (fix6 m) c) ;;
-  bases <- mapM (cut_one c') gate_ids ;;
+  co <- target (fix6 m) inplace c ;;
+  bases <- mapM (cut_one (fst co)) gate_ids ;;
   bl <- alloc (OList bases) ;;
-  ret (c', bl).
+  ret (fst co, bl).
 
 (* ---------------------------------------------------------------- partition_problem *)
 (* for inst in qpd_circuit.data: if TwoQubitQPDGate: bases.append(op.basis); op.label = f"{label}_{i}" *)
@@ -229,8 +237,8 @@ Definition sub_obs (p : addr) (l : nat) : M addr :=
 
 Definition partition_problem (m : mode) (c : addr) (spans : list bool) (sides : list (nat * nat))
     (nl : nat) (obs : option addr) : M (list addr) :=
-  q <- partition_circuit_qubits m false c spans ;;
-  ops <- ops_of q ;;
+  qo <- partition_circuit_qubits m false c spans ;;
+  let ops := snd qo in
   bases <- relabel_loop ops 0 ;;
   subs <- mapM (build_sub ops sides) (seq 0 nl) ;;
   d <- alloc (OList subs) ;;
@@ -313,7 +321,8 @@ Definition splice_piece (m : mode) (a : addr) : M (list addr) :=
       | _, _ => ret []
       end
   | OOp _ _ None (Some _) => ret []          (* no map selected: refused by the repaired tree (F5), not modelled here *)
-  | _ => ret [a]
+  | OOp _ _ _ None => ret [a]                (* an ordinary instruction stays *)
+  | _ => ret []                              (* not an instruction object *)
   end.
 
 (* the part of decompose_qpd_instructions after the optional copy; `ops` = circuit.data of c *)
@@ -323,10 +332,9 @@ Definition dqi_body (m : mode) (c : addr) (ops : list addr) (ids mids : list nat
   write c (OCirc (concat ps)).
 
 Definition decompose_qpd_instructions (m : mode) (inplace : bool) (c : addr) (ids mids : list nat) : M addr :=
-  c' <- (if inplace then ret c else circuit_copy false c) ;;
-  ops <- ops_of c' ;;
-  _ <- dqi_body m c' ops ids mids ;;
-  ret c'.
+  co <- target false inplace c ;;
+  _ <- dqi_body m (fst co) (snd co) ids mids ;;
+  ret (fst co).
 
 (* ---------------------------------------------------------------- generate_cutting_experiments *)
 (* indices of the QPD gates of a circuit, in order (= _get_bases / _get_mapping_ids_by_partition) *)
@@ -338,27 +346,28 @@ Fixpoint qpd_ids (h : heap) (ops : list addr) (i : nat) : list nat :=
               | _ => qpd_ids h r (S i)
               end
   end.
-Definition qpd_ids_of (c : addr) : M (list nat) :=
-  fun h => (h, qpd_ids h (match get h c with OCirc ops => ops | _ => [] end) 0).
+Definition qpd_ids_of (ops : list addr) : M (list nat) := fun h => (h, qpd_ids h ops 0).
 
 (* one subexperiment: new_qc = _append_measurement_register(subcircuit, cog)   [copies]
                        decompose_qpd_instructions(new_qc, ids, map_ids_tmp, inplace=True) *)
 Definition one_experiment (m : mode) (c : addr) (mids : list nat) : M addr :=
-  e <- circuit_copy false c ;;
-  ids <- qpd_ids_of e ;;
-  decompose_qpd_instructions m true e ids mids.
+  eo <- circuit_copy false c ;;
+  ids <- qpd_ids_of (snd eo) ;;
+  _ <- dqi_body m (fst eo) (snd eo) ids mids ;;
+  ret (fst eo).
 
 (* cutidx[l] = for each QPD gate of circuit l, in order, the index of its cut in a sample *)
 Definition experiments_for_sample (m : mode) (circs : list addr) (ngroups : list nat) (cutidx : list (list nat))
-    (sample : list nat) : M (list (list addr)) :=
-  mapM (fun cg => let '(c, g, ci) := cg in
+    (sample : list nat) : M (list addr) :=
+  ess <- mapM (fun cg => let '(c, g, ci) := cg in
                   mapM (fun _ => one_experiment m c (map (fun k => nth k sample 0) ci)) (repeat tt g))
-       (combine (combine circs ngroups) cutidx).
+       (combine (combine circs ngroups) cutidx) ;;
+  ret (concat ess).
 
 Definition generate_cutting_experiments (m : mode) (circs : list addr) (obs : list addr)
     (samples : list (list nat)) (ngroups : list nat) (cutidx : list (list nat)) : M (list addr) :=
   ess <- mapM (experiments_for_sample m circs ngroups cutidx) samples ;;
-  d <- alloc (OList (concat (concat ess))) ;;
+  d <- alloc (OList (concat ess)) ;;
   co <- alloc (OResult (map (@length nat) samples)) ;;
   ret [d; co].
 
@@ -380,7 +389,7 @@ Inductive call :=
 
 Definition run (m : mode) (cl : call) : M (list addr) :=
   match cl with
-  | CPcq ip c spans => x <- partition_circuit_qubits m ip c spans ;; ret [x]
+  | CPcq ip c spans => x <- partition_circuit_qubits m ip c spans ;; ret [fst x]
   | CCutGates ip c gids => x <- cut_gates m ip c gids ;; ret [fst x; snd x]
   | CPartition c spans sides nl obs => partition_problem m c spans sides nl obs
   | CCutWires c => x <- cut_wires m c ;; ret [x]
@@ -410,7 +419,8 @@ Definition in_place (cl : call) : bool :=
 (* the addresses an in-place call may write: the argument circuit and its own instruction objects *)
 Definition own (h : heap) (cl : call) : list addr :=
   match cl with
-  | CPcq _ c _ | CCutGates _ c _ | CDqi _ c _ _ => c :: match get h c with OCirc ops => ops | _ => [] end
+  | CPcq _ c _ | CCutGates _ c _ => [c]                         (* circuit.data[i] = ... only *)
+  | CDqi _ c _ _ => c :: match get h c with OCirc ops => ops | _ => [] end   (* + operation.basis_id = ... *)
   | _ => []
   end.
 
@@ -423,10 +433,10 @@ Definition obj_tag (o : obj) : nat :=
   | ONull => 9 | OCirc _ => 0 | OOp _ _ _ _ => 1 | OBasis _ _ => 2 | OList _ => 3 | OPauli _ => 4 | OResult _ => 5
   end.
 
-(* shared = reachable from both root sets; alias roots = shared objects that are a result root or
+(* rin = objects reachable from the arguments BEFORE the call; shared = those also reachable from the result;
+   alias roots = shared objects that are a result root or
    are referenced by a non-shared object reachable from the result roots *)
-Definition alias_roots (h : heap) (ins outs : list addr) : list addr :=
-  let rin := reach h ins in
+Definition alias_roots (h : heap) (rin outs : list addr) : list addr :=
   let rout := reach h outs in
   let shared := filter (fun a => mem a rin) rout in
   filter (fun a => mem a outs ||
@@ -466,5 +476,5 @@ Definition observe (m : mode) (h : heap) (cl : call) : bool * list nat * list na
   let r2 := run m cl h1 in
   let h2 := fst r2 in
   (changed,
-   tag_counts h1 (alias_roots h1 (args_of cl) (snd r1)),
-   tag_counts h2 (alias_roots h2 (snd r1) (snd r2))).
+   tag_counts h1 (alias_roots h1 (reach h (args_of cl)) (snd r1)),
+   if in_place cl then repeat 0 6 else tag_counts h2 (alias_roots h2 (reach h2 (snd r1)) (snd r2))).
